@@ -301,6 +301,11 @@ func checkRunPipeline(p *Prog, l *Ledger, rule string) {
 				if e.Args[0] == "HadError" && e.Out == "false" && state["scan"] && state["parse"] {
 					state["clean"] = true
 				}
+			case "test":
+				// the flag read in a helper after both phases (`return stmts, !utils.HadError`) and tested by the caller
+				if e.Args[0] == "flag:HadError" && e.Out == "false" && state["scan"] && state["parse"] {
+					state["clean"] = true
+				}
 			}
 		}
 	}
